@@ -32,6 +32,12 @@ def kontOf : Json → Option Kont
     else if tag = S "arm" then some .arm
     else if tag = S "caughtOn" then some .caughtOn
     else none
+  | .arr [.str tag, v, x, .arr ys] =>
+    if tag = S "doneFail" then
+      match natOf v, errOf x, ys.mapM handledOf with
+      | some v, some e, some hs => some (.doneFail v e hs)
+      | _, _, _ => none
+    else none
   | .arr [.str tag, x, .arr ys] =>
     if tag = S "done" then
       match natOf x, ys.mapM boolOf with
@@ -72,13 +78,24 @@ def inpOf : Json → Option Inp
   | .arr [.str tag, a, n, par, k] =>
     if tag = S "launch" then
       match natOf a, natOf n, parOf par, natOf k with
-      | some a, some n, some par, some k => some (.launch a n par k)
+      | some a, some n, some par, some k => some (.launch a n n par k)
       | _, _, _, _ => none
+    else if tag = S "batch" then
+      match natOf a, natOf n, natOf par, boolOf k with
+      | some a, some lo, some hi, some l => some (.batch a lo hi l)
+      | _, _, _, _ => none
+    else none
+  | .arr [.str tag, a, n, hi, par, k] =>
+    if tag = S "launchMap" then
+      match natOf a, natOf n, natOf hi, parOf par, natOf k with
+      | some a, some n, some hi, some par, some k => some (.launch a n hi par k)
+      | _, _, _, _, _ => none
     else none
   | _ => none
 
 def quirksOf (s : String) : Quirks :=
-  { refail := s.contains 'r', oneLevel := s.contains 'o', topUnguarded := s.contains 't' }
+  { refail := s.contains 'r', oneLevel := s.contains 'o', topUnguarded := s.contains 't',
+    nestedSurvive := s.contains 'n' }
 
 def n (k : Nat) : Json := .num (Int.ofNat k)
 def t (s : String) : Json := .str s.toList
@@ -103,6 +120,7 @@ def outJ : Out → Json
   | .orphan a i => .arr [t "orphan", n a, n i]
   | .unknown a => .arr [t "unknown", n a]
   | .refused => .arr [t "refused"]
+  | .joinFailed a e => .arr [t "joinFailed", n a, errJ e]
 
 def slotJ : Slot → Json
   | .pending => t "P"
@@ -112,6 +130,7 @@ def slotJ : Slot → Json
   | .caughtTask => t "CT"
   | .done _ => t "D"
   | .terminated => t "Z"
+  | .unlaunched => t "U"
 
 def attJ (x : Attempt) : Json :=
   .arr [n x.id, .bool x.seen, .bool x.terminated, .bool x.joined, .arr (x.slots.map slotJ)]
